@@ -56,10 +56,19 @@ Deposit(C, S, a) ==
        s1 == VaultIn(Pay(S, a.u, p.collD, a.x), p.collD, a.x)
    IN Good(SetTot(ReplaceVault(s1, [v EXCEPT !.in = @ + a.x]), p.id, C.app, a.x, 0, TotOf(S, p.id).ids))
 
+(* Under emergency shutdown a withdrawal is allowed until the cool-off end, against the PRINCIPAL only, at ratio >= 1, valued  *)
+(* at the price snapshot (before the snapshot is taken the handler cannot value the collateral and the message fails).        *)
+SnapOf(S, d) == CHOOSE r \in Range(S.esm.snaps) : r.denom = d
+EsmCRAtLeast1(C, S, p, in, debt) ==
+   /\ SnapOf(S, p.collD).found /\ (p.outOracle => SnapOf(S, p.debtD).found)
+   /\ in * SnapOf(S, p.collD).price * DecOf(C, p.debtD) >= debt * (IF p.outOracle THEN SnapOf(S, p.debtD).price ELSE p.outPrice) * DecOf(C, p.collD)
+   /\ in * SnapOf(S, p.collD).price > 0
 Withdraw(C, S, a) ==
-   IF S.ctl.breaker \/ ~OwnVault(C, S, a) \/ a.x <= 0 THEN Fail(S) ELSE
+   IF S.ctl.breaker \/ (S.esm.status /\ S.t > S.esm.end) \/ ~OwnVault(C, S, a) \/ a.x <= 0 THEN Fail(S) ELSE
    LET p == ProdOf(C, a.p) v == VaultById(S, a.v) IN
-   IF v.in - a.x <= 0 \/ ~PricesActive(C, S, p) \/ ~CRAtLeast(C, S, p, v.in - a.x, TotalDebt(v), p.minCr.num, p.minCr.den) THEN Fail(S) ELSE
+   IF v.in - a.x <= 0 THEN Fail(S) ELSE
+   IF S.esm.status /\ (~S.esm.snap \/ ~EsmCRAtLeast1(C, S, p, v.in - a.x, v.out)) THEN Fail(S) ELSE
+   IF ~S.esm.status /\ (~PricesActive(C, S, p) \/ ~CRAtLeast(C, S, p, v.in - a.x, TotalDebt(v), p.minCr.num, p.minCr.den)) THEN Fail(S) ELSE
    LET s1 == Receive(VaultIn(S, p.collD, 0 - a.x), a.u, p.collD, a.x)
    IN Good(SetTot(ReplaceVault(s1, [v EXCEPT !.in = @ - a.x]), p.id, C.app, 0 - a.x, 0, TotOf(S, p.id).ids))
 
